@@ -242,9 +242,10 @@ def _apc_codes(stream: bytes, st):
 class SpecTerminal:
     """Feeds one terminal's command stream into the arrival log of Tup.Spec.Store."""
 
-    def __init__(self, name, layers=0):
+    def __init__(self, name, layers=0, formats=None):
         self.name = name
         self.layers = layers
+        self.formats = formats     # encoded formats this terminal decodes under f=100 (None: whatever PIL reads)
         self.log = []          # newest first: dict(id, token, rows, cols, size, time)
         self.partial = None    # inline transfer in progress
         self.pos = 0
@@ -312,6 +313,8 @@ class SpecTerminal:
             try:
                 img = Image.open(io.BytesIO(bytes(data)))
                 img.load()
+                if self.formats is not None and (img.format or "").lower() not in self.formats:
+                    raise ValueError("this terminal does not decode " + str(img.format))
                 token = token_of_image(img) + f"@{img.size[0]}x{img.size[1]}"
             except Exception:
                 token = "UNDECODABLE"
@@ -640,7 +643,10 @@ def check_case(ctx: Ctx, c: dict):
         return check_terminal_switch(ctx, c, "C08")
     d = ctx.driver("drv_e2e")
     td = tempfile.mkdtemp(prefix="vc08")
-    _tmp_before = set(Path(tempfile.gettempdir()).glob("tty-graphics-protocol-*"))
+    # the library's temporary files of this case go to a directory of their own (removed with the case): other checks may be
+    # running at the same time, and nothing of theirs under the shared temp directory may be touched
+    os.makedirs(os.path.join(td, "tmp"))
+    tempfile.tempdir = os.path.join(td, "tmp")
     clock = Clock()
     clock.install()
     U.scrub_env()
@@ -654,8 +660,12 @@ def check_case(ctx: Ctx, c: dict):
         nterm = c["terminals"]
         terms = []
         for i in range(nterm):
-            t, cmd, disp = U.make_terminal(os.path.join(td, "s.db"), f"T{i}", log, tty(), **cfg)
-            terms.append(dict(t=t, cmd=cmd, disp=disp, spec=SpecTerminal(f"T{i}", layers=cfg.get("num_tmux_layers", 0)), cpos=0, dpos=0))
+            # the terminal program behind each object (TERM / XTVERSION name): `st` decodes JPEG too, everything else PNG only; a
+            # configured `supported_formats` is the user's statement about ALL terminals of the scenario
+            tname = (c.get("term_names") or ["xterm-kitty"])[i % len(c.get("term_names") or ["xterm-kitty"])]
+            t, cmd, disp = U.make_terminal(os.path.join(td, "s.db"), f"T{i}", log, tty(), terminal_name=tname, **cfg)
+            fmts = set(cfg["supported_formats"]) if isinstance(cfg.get("supported_formats"), list) else ({"png", "jpeg"} if tname.startswith("st") else {"png"})
+            terms.append(dict(t=t, cmd=cmd, disp=disp, spec=SpecTerminal(f"T{i}", layers=cfg.get("num_tmux_layers", 0), formats=fmts), cpos=0, dpos=0))
         pool = _make_pool(td, c["pool"])
         method_cfg = cfg.get("upload_method", "auto")
 
@@ -870,12 +880,8 @@ def check_case(ctx: Ctx, c: dict):
     finally:
         os.chdir(_ORIG_CWD)
         clock.uninstall()
+        tempfile.tempdir = None
         shutil.rmtree(td, ignore_errors=True)
-        for f in set(Path(tempfile.gettempdir()).glob("tty-graphics-protocol-*")) - _tmp_before:
-            try:
-                f.unlink()      # temporary files the library made during THIS case and no terminal consumed
-            except OSError:
-                pass
 
 
 def _inst_request(inst, display):
@@ -1077,6 +1083,9 @@ def cases(ctx: Ctx):
             cfg["supported_formats"] = ["png", "jpeg"]
         if rng.random() < 0.15:
             cfg["num_tmux_layers"] = rng.choice([1, 2])
+        term_names = None
+        if rng.random() < 0.2:
+            term_names = [rng.choice(["st-256color", "xterm-kitty", "st", "xterm-ghostty"]) for _ in range(nterm)]
         pool = []
         if rng.random() < 0.15:
             for dj in range(rng.choice([2, 3])):
@@ -1135,7 +1144,7 @@ def cases(ctx: Ctx):
                 reqs.append(dict(op="touch", img=rng.randrange(len(pool)), w=rng.choice([6, 9]), h=rng.choice([6, 7]), seed=rng.randrange(1 << 30), dt=rng.choice([10, 1000])))
             else:
                 reqs.append(dict(op="del", t=t, inst=rng.choice(names)))
-        yield dict(k="scenario", terminals=nterm, ssh=ssh, config=cfg, pool=pool, requests=reqs)
+        yield dict(k="scenario", terminals=nterm, ssh=ssh, config=cfg, pool=pool, requests=reqs, **({"term_names": term_names} if term_names else {}))
 
 
 def run(ctx: Ctx):
